@@ -796,6 +796,8 @@ func main() {
 		r.value(&gv{kind: 'H', tn: "hash", keys: []gkey{{false, "a"}}, vals: []*gv{s}}, "grid:hash")
 		r.value(&gv{kind: 'H', tn: "hash", keys: []gkey{{true, "a b"}}, vals: []*gv{s}}, "grid:strkey")
 		r.value(&gv{kind: 'H', tn: "ranch", keys: []gkey{{false, "b"}, {false, "a"}}, vals: []*gv{s, s}}, "grid:defmap")
+		// fields whose names sort before Atype and after zKeyOrder in the decoder's sorted walk
+		r.value(&gv{kind: 'H', tn: "hash", keys: []gkey{{false, "zz"}, {false, "A"}, {false, "zKeyOrdes"}}, vals: []*gv{s, s, {kind: 'A', arr: []*gv{s}}}}, "grid:around-reserved")
 		chain := s
 		for d := 0; d < 4; d++ {
 			if d%2 == 0 {
